@@ -1677,6 +1677,12 @@ class _HTTPStorageServer:
         # to do a query to get that.
         if not shares:
             shares = yield mutable_client.list_shares(storage_index)
+        elif not readv:
+            # With nothing to read, no request would tell us which of the
+            # shares the server lacks (they are left out of the answer).
+            held = yield mutable_client.list_shares(storage_index)
+            shares = [share_number for share_number in shares
+                      if share_number in held]
 
         # Start all the queries in parallel:
         for share_number in shares:
